@@ -69,4 +69,6 @@ def run(rep, tier, seed, replay):
                         "size_chunks()-1 and is not called on an empty torrent)",
                         "piece count below 2^32 ((total + cs - 1) / cs < 2^32; the uint32 truncation of the count is C08's subject)",
                         "bitfield allocated (Download::open state); files are not modified by anyone else while the torrent is open",
-                        "one Chunk alive at a time in the correspondence (the ChunkList reference counting is not part of C02)"]
+                        "one Chunk alive at a time in the correspondence (the ChunkList reference counting is not part of C02)",
+                        "buffer position+length below 2^32 (Chunk::to/from/compare_buffer compute position+length in uint32; the model "
+                        "reproduces the wrapped bound check but walks the parts with the unwrapped end; the theorems assume pos+len < 2^32)"]
